@@ -1,9 +1,10 @@
 /-
   fields_set_default — internal/ast/compiler/fields_set_default.go.
-  `DefaultValues` is a Go map: `defaults` is its entry list IN ITERATION ORDER (any order is
-  possible).  For every field, every matching entry assigns `Type.Default`; the last one in
-  iteration order wins, so two entries whose keys differ only in letter case make the result
-  depend on the order.
+  `DefaultValues` is a Go map: `defaults` is its entry list in whatever order.  The pass first
+  sorts the references (`sort.Slice` by package, then object, then field: a strict total order
+  on the distinct map keys, so the sorted sequence is unique), then, for every field, every
+  matching entry assigns `Type.Default` in that order: the last matching one wins (two keys
+  that differ only in letter case can match the same field).
 -/
 import Cog.Xform.Common
 namespace Cog.Xform.FieldsSetDefault
@@ -12,6 +13,21 @@ open Cog.IR Cog.Xform
 structure Params where
   defaults : List (FieldRef × Val)
   deriving Inhabited
+
+/-- the `less` function given to `sort.Slice` -/
+def refLess (a b : FieldRef) : Bool :=
+  if a.pkg != b.pkg then decide (a.pkg < b.pkg)
+  else if a.obj != b.obj then decide (a.obj < b.obj)
+  else decide (a.field < b.field)
+
+def insertBy (e : FieldRef × Val) : List (FieldRef × Val) → List (FieldRef × Val)
+  | [] => [e]
+  | x :: xs => if refLess e.1 x.1 then e :: x :: xs else x :: insertBy e xs
+
+/-- the sorted sequence of the entries -/
+def sortDefaults (l : List (FieldRef × Val)) : List (FieldRef × Val) := l.foldr insertBy []
+
+def sorted (p : Params) : Params := { defaults := sortDefaults p.defaults }
 
 def setDefault (v : Val) (f : Field) : Field :=
   { f with ty := f.ty.setMeta { f.ty.getMeta with dflt := v } }
@@ -29,7 +45,10 @@ def objFail (o : Obj) : Option Failure :=
   | .bad "struct" _ => some .panic
   | _ => none
 
-def apply (p : Params) (S : Schemas) : Schemas := S.map (visitSchema id (fun _ => onObj p))
+/-- the entries applied in the order given -/
+def applyOrder (p : Params) (S : Schemas) : Schemas := S.map (visitSchema id (fun _ => onObj p))
+
+def apply (p : Params) (S : Schemas) : Schemas := applyOrder (sorted p) S
 
 def fail? (_ : Params) (S : Schemas) : Option Failure :=
   firstFail (visitSchemaFail (walkFail []) objFail) S
